@@ -442,6 +442,18 @@ def gen_fraginit(rng, tier):
                 calls = [{'op': 'fi'}, {'op': 'fw', 'pts': 0, 'dts': 0, 'data': pad(rng, 5), 'sync': True},
                          {'op': 'fw', 'pts': 3000, 'dts': 3000, 'data': pad(rng, 2), 'sync': False}, {'op': 'fi'}, {'op': 'ff'}, {'op': 'fi'}]
                 out.append({'kind': 'frag', 'cfg': cfg, 'calls': calls})
+    # readiness at the fragment-duration boundary: the builder's documented default (2 s) and explicit targets via the config
+    for via, fragms in (('builder', 2000), ('config', 2000), ('config', 1), ('config', 100), ('config', 1999), ('config', 2001), ('config', 0)):
+        for t0 in (0, 7):
+            cfg = {'vc': 'h264', 'w': 640, 'h': 480, 'timescale': 90000, 'fragms': fragms, 'via': via, 'unit': 1, 'unit1': True,
+                   'judge_config': True, 'must_build': True, 'w32': W30, 'i32': W30, 'sps': list(SPS_A), 'pps': list(PPS_A),
+                   'facets': {'bytes': True, 'timing': True, 'tree': False, 'raw': False}}
+            edge = fragms * 90
+            calls = [{'op': 'fr'}, {'op': 'fd'}, {'op': 'fw', 'pts': t0, 'dts': t0, 'data': pad(rng, 5), 'sync': True}, {'op': 'fr'}, {'op': 'fd'}]
+            for d in sorted({max(1, edge // 2), max(1, edge - 1), max(2, edge), edge + 1, edge + 90}):
+                calls += [{'op': 'fw', 'pts': t0 + d, 'dts': t0 + d, 'data': pad(rng, 3), 'sync': False}, {'op': 'fr'}, {'op': 'fd'}]
+            calls += [{'op': 'ff'}, {'op': 'fr'}, {'op': 'fd'}]
+            out.append({'kind': 'frag', 'cfg': cfg, 'calls': calls})
     # every H.264 profile_idc class (the avcC of the High profiles continues after the parameter sets)
     for prof in (66, 77, 88, 100, 110, 122, 144, 244, 44):
         for via in ('builder', 'config'):
